@@ -225,6 +225,17 @@ pub fn examine_program(text: &str, origin: &str, seed: u64, report: &mut Report)
                         }
                         Err(t) => {
                             let class = diffexec::trap_class(&t);
+                            if class == "trap:uninitialised" {
+                                // the source function is defined on these arguments (oracle i ran it), the emitted text read with
+                                // C-like scoping computes with a value that was never written
+                                let w = witness(seed, text, origin, flavour, name, &args, &emitted, &truth.describe(), "reads a value that was never written");
+                                let shape = if !crate::oracle::decls::self_named_initialisers(tree).is_empty() { ":local-initialised-from-its-own-name" } else { "" };
+                                report.violation(
+                                    &format!("emitted-undefined:c-like-semantics:trap:uninitialised{}", shape),
+                                    &format!("function {} is defined on the source but the emitted {} read with C-like HLSL semantics computes with a value that was never written", name, flavour.name()),
+                                    w,
+                                );
+                            }
                             report.count(&format!("oracle-ii-skipped:{}", class));
                             if std::env::var("VERIF_DEBUG").is_ok() {
                                 eprintln!("=== oracle ii gave up on {} ({}): {:?}", name, origin, t);
@@ -367,6 +378,12 @@ pub fn scoping_programs() -> Vec<String> {
         // user names spelled like the names the exporters generate for an overload set / a reserved word
         "float weight(float x) { return x * 2.0f; }\nfloat weight(int x) { return (float)x + 0.5f; }\nfloat s8(float x) { float weight_0 = weight(x); float weight_1 = weight((int)x); return weight_0 + weight_1 * 4.0f + weight(weight_0); }\n",
         "static float kernel = 1.5f;\nstatic float technique = 2.5f;\nfloat s9(float x) { float kernel_0 = x; float technique_0 = x * 3.0f; kernel += 1.0f; return kernel - kernel_0 + technique * technique_0; }\n",
+        // a local that hides a parameter / an outer local and is initialised from the entity it hides (RSSL: the name in the
+        // initialiser still denotes the outer entity)
+        "int s12(int x) { int r = 0; { int x = x + 1; r = x; } return r * 10 + x; }\n",
+        "float s13(float x) { float y = x * 2.0f; for (int i = 0; i < 2; ++i) { float y = y + 1.0f; x += y; } return x + y; }\n",
+        // an array passed by value and written by the callee: the caller's array is unchanged
+        "void fill(int a[2], int v) { a[0] = v; a[1] += v; }\nint s14(int x) { int v[2] = { x, 2 }; fill(v, 5); return v[0] * 100 + v[1]; }\n",
     ];
     scoping.iter().map(|t| t.to_string()).collect()
 }
